@@ -322,6 +322,76 @@ def run(chk):
         return True, "", sites
     chk.ob("C20.R3:top-level", "the crate-level accessors and flush go through runtime::shared() unconditionally (inert, flush true, before init)", top_level)
 
+    def right_slot():
+        """shared()/shared_slot() name the SHARED static, internal()/internal_slot() the INTERNAL one; Setup::init/try_init go to
+        the shared slot, init_internal/try_init_internal to the internal one; AmbientInternalSlot forwards to the slot it wraps."""
+        RT = "emit_core::runtime::"
+        sites = []
+        for fn, static in (("shared", "SHARED"), ("shared_slot", "SHARED"), ("internal", "INTERNAL"), ("internal_slot", "INTERNAL")):
+            if not P.has_body(RT + fn):
+                raise mir.AnchorMissing(RT + fn)
+            b = P.body(RT + fn)
+            stat = {str(v) for k, v in common.roots(b.origin(0)) if k == "const"}
+            if not any(x.endswith("runtime::" + static) for x in stat):
+                return False, "runtime::%s() reads %s, not the %s slot" % (fn, sorted(stat), static), [], b.span
+            other = "INTERNAL" if static == "SHARED" else "SHARED"
+            if any(x.endswith("runtime::" + other) for x in stat):
+                return False, "runtime::%s() also reads the %s slot" % (fn, other), [], b.span
+            if fn in ("shared", "internal"):
+                g = [c for c in b.calls(normal_only=True)]
+                if len(g) != 1 or g[0].callee.get("name") != "get":
+                    return False, "runtime::%s() must be exactly %s.get()" % (fn, static), [], b.span
+            sites.append(b.span)
+        SU = "emit::setup::Setup::<TEmitter, TFilter, TCtxt, TClock, TRng>::"
+        for fn, via, slotfn in (("init", "init_slot", "shared_slot"), ("try_init", "try_init_slot", "shared_slot"), ("try_init_internal", None, "internal_slot")):
+            b = P.body(SU + fn)
+            sl = [c for c in b.calls(normal_only=True) if (c.callee.get("path") or "").startswith(RT) and c.callee.get("name") in ("shared_slot", "internal_slot")]
+            if len(sl) != 1 or sl[0].callee.get("name") != slotfn:
+                return False, "Setup::%s must initialise runtime::%s() (uses %s)" % (fn, slotfn, [c.callee.get("name") for c in sl]), [], b.span
+            if via:
+                v = [c for c in b.calls(normal_only=True) if c.callee.get("name") == via]
+                if len(v) != 1 or not common.has_root(b.origin(v[0].args[1]), "callsite", sl[0].bb) or not common.has_root(b.origin(0), "callsite", v[0].bb):
+                    return False, "Setup::%s must be %s(runtime::%s())" % (fn, via, slotfn), [], b.span
+            else:
+                ini = [c for c in b.calls(normal_only=True) if c.callee.get("name") == "init" and "Slot" in (c.callee.get("path") or "")]
+                if len(ini) != 1 or not common.has_root(b.origin(ini[0].args[0]), "callsite", sl[0].bb):
+                    return False, "Setup::%s does not initialise the slot it looked up" % fn, [], b.span
+                gets = [c for c in b.calls(normal_only=True) if c.callee.get("name") == "get" and "Slot" in (c.callee.get("path") or "")]
+                if len(gets) != 1 or not b.dominates(ini[0].bb, gets[0].bb) or not common.has_root(b.origin(gets[0].args[0]), "callsite", sl[0].bb):
+                    return False, "Setup::%s must read the handle's runtime from the same slot after init" % fn, [], b.span
+            sites.append(b.span)
+        b = P.body(SU + "init_internal")
+        t = [c for c in b.calls(normal_only=True) if c.callee.get("name") == "try_init_internal"]
+        e = [c for c in b.calls(normal_only=True) if c.callee.get("name") in ("expect", "unwrap")]
+        if len(t) != 1 or len(e) != 1 or not common.has_root(b.origin(e[0].args[0]), "callsite", t[0].bb):
+            return False, "init_internal must be try_init_internal().expect(..)", [], b.span
+        IS = "emit_core::runtime::std_support::AmbientInternalSlot::"
+        for fn in ("init", "get", "is_enabled"):
+            b = P.body(IS + fn)
+            cs = [c for c in b.calls(normal_only=True)]
+            if len(cs) != 1 or cs[0].callee.get("name") != fn or "AmbientSlot" not in (cs[0].callee.get("path") or ""):
+                return False, "AmbientInternalSlot::%s must forward to the wrapped slot's %s" % (fn, fn), [], b.span
+            if mir.o_field_path(b.origin(cs[0].args[0]))[1] != ["0"] or not common.has_root(b.origin(0), "callsite", cs[0].bb):
+                return False, "AmbientInternalSlot::%s does not forward self.0.%s() and return it" % (fn, fn), [], b.span
+            if fn == "init" and not mir.o_is_param(b.origin(cs[0].args[1]), idx=2):
+                return False, "AmbientInternalSlot::init does not pass the given pipeline on", [], b.span
+            sites.append(b.span)
+        return True, "", sites
+    chk.ob("C20.R6:right-slot", "the global entry points name the right static slot and the internal slot forwards to the slot it wraps", right_slot)
+
+    def init_guard():
+        bs = [b for b in P.bodies.values() if b.method == "drop" and (b.self_ty or "").startswith("emit::setup::InitGuard<") and not b.is_closure]
+        if not bs:
+            raise mir.AnchorMissing("Drop for InitGuard")
+        b = bs[0]
+        fl = [c for c in b.calls(normal_only=True) if c.callee.get("name") == "blocking_flush"]
+        if len(fl) != 1 or b.count_on_paths({fl[0].bb}) != (1, 1):
+            return False, "dropping the guard must flush exactly once", [], b.span
+        if mir.o_field_path(b.origin(fl[0].args[0], through_calls=("deref",)))[1][:1] != ["inner"] or mir.o_field_path(b.origin(fl[0].args[1]))[1] != ["timeout"]:
+            return False, "the guard must flush its own Init with its own timeout", [], fl[0].loc
+        return True, "", [fl[0].loc]
+    chk.ob("C20.R6:InitGuard", "flush_on_drop flushes the initialised runtime once, with the configured timeout, when the guard drops", init_guard)
+
     def init_slot():
         b = P.body("emit::setup::Setup::<TEmitter, TFilter, TCtxt, TClock, TRng>::init_slot")
         t = [c for c in b.calls(normal_only=True) if (c.callee.get("path") or "").endswith("::try_init_slot")]
